@@ -164,6 +164,9 @@ class Report:
             lines.append("KNOWN-FINDING: property=%s %s [%s]" % (self.pid, known_keys[o["key"]]["what"], o["key"]))
         code = 0
         seen_new = set()
+        for stale in os.listdir(REPLAY):          # replay files of earlier runs of this property
+            if stale.startswith(self.pid + "-"):
+                os.remove(os.path.join(REPLAY, stale))
         for o in new:
             if o["key"] in seen_new:
                 continue
